@@ -77,3 +77,8 @@ func vs_piece(s string, p, q int, r rune) string {
 
 // vs_validUTF8: the text is valid UTF-8 (what encoding/json always produces).
 func vs_validUTF8(s string) bool { return utf8.ValidString(s) }
+
+// vs_goNameFile: per-model and per-operation files are named after the Go identifier of the
+// model / operation (pascalize, then snakize): two definitions or operations that get distinct
+// Go names therefore get distinct files, and none overwrites another (C08).
+const vs_goNameFile = "{{ (snakize (pascalize .Name)) }}"
